@@ -22,4 +22,8 @@ theorem nonprefixable_slice_01_0 : nonprefixableSliceOk 1 0 = true := by decide 
 theorem nonprefixable_slice_01_1 : nonprefixableSliceOk 1 1 = true := by decide +kernel
 theorem nonprefixable_slice_01_2 : nonprefixableSliceOk 1 2 = true := by decide +kernel
 
+/-- the body of `generate_name_alternatives`' outer loop, for the table keys number i ≡ 1 (mod 16),
+    started in the state the real generator had there, appends exactly what the real one appended -/
+theorem gen_chunk_01 : genChunkOk 1 = true := by decide +kernel
+
 end Unyt.C14
